@@ -355,27 +355,66 @@ fn open_full(lo: usize, hi: usize, step: usize) {
     }
 }
 
-macro_rules! proof {
-    ($name:ident, $body:expr) => {
-        #[kani::proof]
-        #[kani::unwind(45)]
-        #[kani::stub(aranya_crypto::zeroize::optimization_barrier, common::no_barrier)]
-        fn $name() {
-            $body
-        }
-    };
+#[kani::proof]
+#[kani::unwind(45)]
+#[kani::stub(aranya_crypto::zeroize::optimization_barrier, common::no_barrier)]
+fn c39_open_truncated_0_7() {
+    open_truncated(0, 7);
 }
-
-proof!(c39_open_truncated_0_7, open_truncated(0, 7));
-proof!(c39_open_truncated_8_15, open_truncated(8, 15));
-proof!(c39_open_truncated_16_23, open_truncated(16, 23));
-proof!(c39_open_any_bytes_24_25, open_full(24, 25, 1));
-proof!(c39_open_any_bytes_40, open_full(40, 40, 1));
-proof!(c39_open_any_bytes_26_28, open_full(26, 28, 1));
-proof!(c39_open_any_bytes_29_31, open_full(29, 31, 1));
-proof!(c39_open_any_bytes_32_34, open_full(32, 34, 1));
-proof!(c39_open_any_bytes_35_37, open_full(35, 37, 1));
-proof!(c39_open_any_bytes_38_39, open_full(38, 39, 1));
+#[kani::proof]
+#[kani::unwind(45)]
+#[kani::stub(aranya_crypto::zeroize::optimization_barrier, common::no_barrier)]
+fn c39_open_truncated_8_15() {
+    open_truncated(8, 15);
+}
+#[kani::proof]
+#[kani::unwind(45)]
+#[kani::stub(aranya_crypto::zeroize::optimization_barrier, common::no_barrier)]
+fn c39_open_truncated_16_23() {
+    open_truncated(16, 23);
+}
+#[kani::proof]
+#[kani::unwind(45)]
+#[kani::stub(aranya_crypto::zeroize::optimization_barrier, common::no_barrier)]
+fn c39_open_any_bytes_24_25() {
+    open_full(24, 25, 1);
+}
+#[kani::proof]
+#[kani::unwind(45)]
+#[kani::stub(aranya_crypto::zeroize::optimization_barrier, common::no_barrier)]
+fn c39_open_any_bytes_40() {
+    open_full(40, 40, 1);
+}
+#[kani::proof]
+#[kani::unwind(45)]
+#[kani::stub(aranya_crypto::zeroize::optimization_barrier, common::no_barrier)]
+fn c39_open_any_bytes_26_28() {
+    open_full(26, 28, 1);
+}
+#[kani::proof]
+#[kani::unwind(45)]
+#[kani::stub(aranya_crypto::zeroize::optimization_barrier, common::no_barrier)]
+fn c39_open_any_bytes_29_31() {
+    open_full(29, 31, 1);
+}
+#[kani::proof]
+#[kani::unwind(45)]
+#[kani::stub(aranya_crypto::zeroize::optimization_barrier, common::no_barrier)]
+fn c39_open_any_bytes_32_34() {
+    open_full(32, 34, 1);
+}
+#[kani::proof]
+#[kani::unwind(45)]
+#[kani::stub(aranya_crypto::zeroize::optimization_barrier, common::no_barrier)]
+fn c39_open_any_bytes_35_37() {
+    open_full(35, 37, 1);
+}
+#[kani::proof]
+#[kani::unwind(45)]
+#[kani::stub(aranya_crypto::zeroize::optimization_barrier, common::no_barrier)]
+fn c39_open_any_bytes_38_39() {
+    open_full(38, 39, 1);
+}
 
 // ---------------------------------------------------------------------------------
 // open_in_place: any byte string (FixedBuf, adversarial AEAD)
@@ -473,16 +512,56 @@ fn open_in_place_full(lo: usize, hi: usize) {
 }
 
 // Lengths 0..=7: not even a header.
-proof!(c39_open_in_place_no_header, open_in_place_truncated(0, 7));
+#[kani::proof]
+#[kani::unwind(45)]
+#[kani::stub(aranya_crypto::zeroize::optimization_barrier, common::no_barrier)]
+fn c39_open_in_place_no_header() {
+    open_in_place_truncated(0, 7);
+}
 // Lengths 8..=23: a whole header (8 bytes) but fewer than 16 bytes before it.
 // `Client::open` rejects these with `checked_sub`; `open_in_place` must too.
-proof!(c39_open_in_place_short_input, open_in_place_truncated(8, 23));
-proof!(c39_open_in_place_any_bytes_24_26, open_in_place_full(24, 26));
-proof!(c39_open_in_place_any_bytes_40, open_in_place_full(40, 40));
-proof!(c39_open_in_place_any_bytes_27_31, open_in_place_full(27, 31));
-proof!(c39_open_in_place_any_bytes_32_35, open_in_place_full(32, 35));
-proof!(c39_open_in_place_any_bytes_36_37, open_in_place_full(36, 37));
-proof!(c39_open_in_place_any_bytes_38_39, open_in_place_full(38, 39));
+#[kani::proof]
+#[kani::unwind(45)]
+#[kani::stub(aranya_crypto::zeroize::optimization_barrier, common::no_barrier)]
+fn c39_open_in_place_short_input() {
+    open_in_place_truncated(8, 23);
+}
+#[kani::proof]
+#[kani::unwind(45)]
+#[kani::stub(aranya_crypto::zeroize::optimization_barrier, common::no_barrier)]
+fn c39_open_in_place_any_bytes_24_26() {
+    open_in_place_full(24, 26);
+}
+#[kani::proof]
+#[kani::unwind(45)]
+#[kani::stub(aranya_crypto::zeroize::optimization_barrier, common::no_barrier)]
+fn c39_open_in_place_any_bytes_40() {
+    open_in_place_full(40, 40);
+}
+#[kani::proof]
+#[kani::unwind(45)]
+#[kani::stub(aranya_crypto::zeroize::optimization_barrier, common::no_barrier)]
+fn c39_open_in_place_any_bytes_27_31() {
+    open_in_place_full(27, 31);
+}
+#[kani::proof]
+#[kani::unwind(45)]
+#[kani::stub(aranya_crypto::zeroize::optimization_barrier, common::no_barrier)]
+fn c39_open_in_place_any_bytes_32_35() {
+    open_in_place_full(32, 35);
+}
+#[kani::proof]
+#[kani::unwind(45)]
+#[kani::stub(aranya_crypto::zeroize::optimization_barrier, common::no_barrier)]
+fn c39_open_in_place_any_bytes_36_37() {
+    open_in_place_full(36, 37);
+}
+#[kani::proof]
+#[kani::unwind(45)]
+#[kani::stub(aranya_crypto::zeroize::optimization_barrier, common::no_barrier)]
+fn c39_open_in_place_any_bytes_38_39() {
+    open_in_place_full(38, 39);
+}
 
 // ---------------------------------------------------------------------------------
 // seal / seal_in_place against the adversarial AEAD
@@ -576,9 +655,24 @@ fn seal_adv(n: usize) {
     kani::cover!(!o.ok & (o.calls == 1), "seal err after AEAD call, larger dst");
 }
 
-proof!(c39_seal_adv_0, seal_adv(0));
-proof!(c39_seal_adv_5, seal_adv(5));
-proof!(c39_seal_adv_16, seal_adv(16));
+#[kani::proof]
+#[kani::unwind(45)]
+#[kani::stub(aranya_crypto::zeroize::optimization_barrier, common::no_barrier)]
+fn c39_seal_adv_0() {
+    seal_adv(0);
+}
+#[kani::proof]
+#[kani::unwind(45)]
+#[kani::stub(aranya_crypto::zeroize::optimization_barrier, common::no_barrier)]
+fn c39_seal_adv_5() {
+    seal_adv(5);
+}
+#[kani::proof]
+#[kani::unwind(45)]
+#[kani::stub(aranya_crypto::zeroize::optimization_barrier, common::no_barrier)]
+fn c39_seal_adv_16() {
+    seal_adv(16);
+}
 
 fn seal_in_place_case(e: &mut Env<AdvAead>, n: usize, cap: usize) -> Out {
     common::ghost_reset();
@@ -648,9 +742,24 @@ fn seal_in_place_adv(n: usize) {
     kani::cover!(o.ok, "seal_in_place ok, spare capacity");
 }
 
-proof!(c39_seal_in_place_adv_0, seal_in_place_adv(0));
-proof!(c39_seal_in_place_adv_5, seal_in_place_adv(5));
-proof!(c39_seal_in_place_adv_16, seal_in_place_adv(16));
+#[kani::proof]
+#[kani::unwind(45)]
+#[kani::stub(aranya_crypto::zeroize::optimization_barrier, common::no_barrier)]
+fn c39_seal_in_place_adv_0() {
+    seal_in_place_adv(0);
+}
+#[kani::proof]
+#[kani::unwind(45)]
+#[kani::stub(aranya_crypto::zeroize::optimization_barrier, common::no_barrier)]
+fn c39_seal_in_place_adv_5() {
+    seal_in_place_adv(5);
+}
+#[kani::proof]
+#[kani::unwind(45)]
+#[kani::stub(aranya_crypto::zeroize::optimization_barrier, common::no_barrier)]
+fn c39_seal_in_place_adv_16() {
+    seal_in_place_adv(16);
+}
 
 // ---------------------------------------------------------------------------------
 // Round trips with the toy AEAD (identity cipher, tag = f(nonce, data, ad))
@@ -741,10 +850,30 @@ fn roundtrip(n: usize) {
     kani::cover!(s0 == 0, "round trip at sequence number zero");
 }
 
-proof!(c39_roundtrip_0, roundtrip(0));
-proof!(c39_roundtrip_1, roundtrip(1));
-proof!(c39_roundtrip_7, roundtrip(7));
-proof!(c39_roundtrip_16, roundtrip(16));
+#[kani::proof]
+#[kani::unwind(45)]
+#[kani::stub(aranya_crypto::zeroize::optimization_barrier, common::no_barrier)]
+fn c39_roundtrip_0() {
+    roundtrip(0);
+}
+#[kani::proof]
+#[kani::unwind(45)]
+#[kani::stub(aranya_crypto::zeroize::optimization_barrier, common::no_barrier)]
+fn c39_roundtrip_1() {
+    roundtrip(1);
+}
+#[kani::proof]
+#[kani::unwind(45)]
+#[kani::stub(aranya_crypto::zeroize::optimization_barrier, common::no_barrier)]
+fn c39_roundtrip_7() {
+    roundtrip(7);
+}
+#[kani::proof]
+#[kani::unwind(45)]
+#[kani::stub(aranya_crypto::zeroize::optimization_barrier, common::no_barrier)]
+fn c39_roundtrip_16() {
+    roundtrip(16);
+}
 
 /// A sealed message with any single byte changed is rejected by both interfaces and
 /// no plaintext is left behind.  (With the toy tag a one-byte change of ciphertext,
@@ -787,5 +916,15 @@ fn modified(n: usize) {
     kani::cover!(pos >= n + TAG, "header byte changed");
 }
 
-proof!(c39_modified_byte_rejected_3, modified(3));
-proof!(c39_modified_byte_rejected_8, modified(8));
+#[kani::proof]
+#[kani::unwind(45)]
+#[kani::stub(aranya_crypto::zeroize::optimization_barrier, common::no_barrier)]
+fn c39_modified_byte_rejected_3() {
+    modified(3);
+}
+#[kani::proof]
+#[kani::unwind(45)]
+#[kani::stub(aranya_crypto::zeroize::optimization_barrier, common::no_barrier)]
+fn c39_modified_byte_rejected_8() {
+    modified(8);
+}
